@@ -344,6 +344,9 @@ class G:
         return p + inner + end
 
     def mstmt(self, d, nodo=False):
+        if self.chance(1, 12):
+            # a statement label (the target of %goto): %name, optional blank, ':', then a statement
+            return self.T("%" + self.uname()) + self.T(self.pick("", "", " ")) + self.T(":") + self.gap() + self.body(d)
         c = self.r.randint(0, 8 if not nodo else 6)
         if c == 0:
             return self.T("%" + self.case("let")) + self.gap(True) + self.nameexpr(d) + self.gap() + [("=", ("D", "ASSIGN", "MissingExpectedAssign"))] + self.gap() + self.text(d) + self.SEMI()
